@@ -21,7 +21,11 @@ RunFails(o, run) ==
   IF run.status = "na" THEN <<>>                \* this store has no working-copy operation (via = "clone" on BasicGarnishData)
   ELSE IF run.status = "setuperr" THEN <<>>          \* the operand itself cannot be built on this store (a symbol list with a number on Simple)
   ELSE IF run.status = "panic" THEN F("panic")
-  ELSE IF def THEN (IF run.status = "ok" /\ Defers(run.log) # <<>> THEN F("defined combination offered to the host") ELSE <<>>)
+  ELSE IF def THEN (IF run.status = "ok" /\ Defers(run.log) # <<>> THEN F("defined combination offered to the host")
+                    \* a path access (list applied to a symbol list) is a walk of single accesses; a step of the walk that meets an operand
+                    \* combination without a result (a number accessed with an index, unit accessed with a key) ends it with unit
+                    ELSE IF o.ins = "Apply" /\ Ty(o.l) = "List" /\ Ty(r) = "SymbolList" /\ run.status = "err" THEN F("a step of a path access failed")
+                    ELSE <<>>)
   ELSE IF run.status # "ok" THEN F("execution failed")
   ELSE LET d == Defers(run.log)
            expect == IF o.mode = "accept" THEN HostValue ELSE U IN
